@@ -1415,6 +1415,11 @@ func (self *_parser) parseExpression() ast.Expression {
 }
 
 func (self *_parser) checkComma(from, to file.Idx) {
+	if from > to {
+		// Can only happen after a syntax error (which has already been reported): error recovery
+		// may have consumed the closing bracket as part of the rest element.
+		return
+	}
 	if pos := strings.IndexByte(self.str[int(from)-self.base:int(to)-self.base], ','); pos >= 0 {
 		self.error(from+file.Idx(pos), "Comma is not allowed here")
 	}
